@@ -537,3 +537,81 @@ Proof.
   intros Hw Hc Hcons He Hu. pose proof (user_means_fits c r Hw Hu) as H.
   rewrite Hc in H. destruct (H Hcons) as [H1 _]. congruence.
 Qed.
+
+(** * the response iterator, statement by statement, with a close callback that may raise *)
+Lemma ri_steps_eq : ri_close_steps = [RiMark; RiCall].
+Proof. reflexivity. Qed.
+
+Lemma ri_close_open fin raises : ri_close false fin raises = (if raises then fin else fin ++ [], true).
+Proof. unfold ri_close. rewrite ri_steps_eq. simpl. destruct raises; reflexivity. Qed.
+Lemma ri_close_closed fin raises : ri_close true fin raises = ([], true).
+Proof. reflexivity. Qed.
+
+(** with a callback that does not raise, the explicit iterator is the [serve] the theorems are about *)
+Ltac ri_norm := unfold close_call, ri_close; rewrite ?ri_steps_eq; cbn [ri_run negb andb orb fst app].
+
+Lemma serve_it_refines fin : forall ch f tk cl, serve_it ch f fin false tk cl = serve ch f fin tk cl.
+Proof.
+  induction ch as [|n rest IH]; intros f tk cl; cbn [serve_it serve]; ri_norm.
+  - destruct tk as [[|k]|]; destruct cl, f; cbn [ri_run negb andb orb fst app]; rewrite ?app_nil_r; reflexivity.
+  - destruct tk as [[|k]|]; cbn [option_map]; rewrite ?IH; destruct cl; cbn [ri_run negb andb orb fst app];
+      rewrite ?app_nil_r; reflexivity.
+Qed.
+
+Lemma serve_it_close_count fin raises : count is_ctxclose fin = 1%nat ->
+  forall ch f tk cl, cl = true \/ tk = None ->
+                     count is_ctxclose (serve_it ch f fin raises tk cl) = 1%nat.
+Proof.
+  intros Hc. induction ch as [|n rest IH]; intros f tk cl Hs; cbn [serve_it]; ri_norm.
+  - assert (Hn : count is_ctxclose (@nil ev) = 0%nat) by reflexivity.
+    assert (Hr : count is_ctxclose [Raise OtherExn] = 0%nat) by reflexivity.
+    destruct tk as [[|k]|]; [destruct Hs as [Hs | Hs]; [subst cl|discriminate]| |];
+      destruct raises, f; try destruct cl; cbn [ri_run negb andb orb fst app];
+      rewrite ?app_nil_r, ?count_app, ?Hc, ?Hn, ?Hr; reflexivity.
+  - destruct tk as [[|k]|]; cbn [option_map].
+    + destruct Hs as [-> | Hs]; [|discriminate].
+      destruct raises; cbn [ri_run negb andb orb fst app]; rewrite ?app_nil_r, ?count_app, ?Hc; reflexivity.
+    + unfold count in *; simpl. apply IH. destruct Hs; auto; discriminate.
+    + unfold count in *; simpl. apply IH. auto.
+Qed.
+
+Lemma serve_it_quiet_start fin raises : quiet is_start fin = true ->
+  forall ch f tk cl, quiet is_start (serve_it ch f fin raises tk cl) = true.
+Proof.
+  intros Hq. induction ch as [|n rest IH]; intros f tk cl; cbn [serve_it]; ri_norm.
+  - destruct tk as [[|k]|]; destruct raises, f, cl; cbn [ri_run negb andb orb fst app];
+      rewrite ?app_nil_r, ?quiet_app, ?Hq; reflexivity.
+  - destruct tk as [[|k]|]; cbn [option_map].
+    + destruct raises, cl; cbn [ri_run negb andb orb fst app]; rewrite ?app_nil_r, ?quiet_app, ?Hq; reflexivity.
+    + simpl. apply IH.
+    + simpl. apply IH.
+Qed.
+
+Lemma closed_once_failing_close c r cf k cl : In (Start k cl) (trace_cf c r cf) ->
+  closes r = true \/ take r = None -> count is_ctxclose (trace_cf c r cf) = 1%nat.
+Proof.
+  intros H Hs. unfold trace_cf in *.
+  assert (exists ch f fin, o_resp (run c r) = Responds k cl ch f fin) as (ch & f & fin & E).
+  { apply in_app_or in H. destruct H as [H|H].
+    - apply in_map_iff in H. destruct H as (p & Hp & _). discriminate.
+    - apply in_app_or in H. destruct H as [H|H].
+      + destruct (o_user (run c r)); simpl in H; [destruct H as [H|[]]; discriminate | contradiction].
+      + destruct (o_resp (run c r)) as [e| |k' cl' ch f fin] eqn:E; simpl in H.
+        * destruct H as [H|[]]; discriminate.
+        * contradiction.
+        * destruct H as [H|H].
+          -- inversion H; subst. eauto.
+          -- exfalso.
+             assert (Hf : quiet is_start (fin_cf cf fin) = true)
+               by (destruct (run_fin _ _ _ _ _ _ _ E) as [Hx | Hx]; rewrite Hx; destruct cf; reflexivity).
+             pose proof (serve_it_quiet_start _ (raises_cf cf fin) Hf ch f (take r) (closes r)) as Hq.
+             apply (quiet_in _ _ _ Hq) in H. discriminate. }
+  rewrite E, !count_app. simpl.
+  assert (Hrd : count is_ctxclose (map (fun p => Read (fst p) (snd p)) (o_reads (run c r))) = 0%nat).
+  { clear. unfold count. induction (o_reads (run c r)); simpl; auto. }
+  rewrite Hrd.
+  assert (Hc : count is_ctxclose (fin_cf cf fin) = 1%nat).
+  { destruct (run_fin _ _ _ _ _ _ _ E) as [Hx | Hx]; rewrite Hx; destruct cf; reflexivity. }
+  pose proof (serve_it_close_count (fin_cf cf fin) (raises_cf cf fin) Hc ch f (take r) (closes r) Hs).
+  destruct (o_user (run c r)); unfold count in *; simpl; lia.
+Qed.
